@@ -98,8 +98,26 @@ Section Oracles.
   Definition final_step (h0 h1 : Q) : Q := s_min (lit_100 * h0) h1.
 
   (* ------------------------------------------------------------------ dt0 *)
-  (* def dt0(vf, initial_values, /, scale=0.01, nugget=1e-5, **vf_kwargs) *)
-  Definition dt0_simple (scale nugget t : Q) (u0 : list Q) : Q :=
+  (* def dt0(vf, initial_values, /, scale=0.01, nugget=1e-5, **vf_kwargs)
+       norm_y0 = linalg.vector_norm(u0)
+       norm_dy0 = linalg.vector_norm(f0) + nugget
+       return np.where(norm_y0 < 1e-5, 1e-6, scale * norm_y0 / norm_dy0)
+     A zero denominator in the branch that is selected (possible only for
+     nugget <= 0) is a failure of the model (None): the float code returns
+     inf / nan there. *)
+  Definition dt0_simple_branch (u0 : list Q) : bool := s_ltb (nrm u0) lit_1em5.
+  Definition dt0_simple (scale nugget t : Q) (u0 : list Q) : option Q :=
+    let f0 := f t u0 in
+    let norm_y0 := nrm u0 in
+    let norm_dy0 := nrm f0 + nugget in
+    if s_ltb norm_y0 lit_1em5 then Some lit_1em6
+    else if Qeq_bool norm_dy0 0 then None
+    else Some (scale * norm_y0 / norm_dy0).
+
+  (* The formula BEFORE the repair f2a7222 ("fix: dt0 returns a positive step
+     for zero or tiny initial values"): no guard.  Kept as documentation of the
+     repaired defect (finding F6, signature C18.dt0.zero-or-tiny-u0). *)
+  Definition dt0_unguarded (scale nugget t : Q) (u0 : list Q) : Q :=
     let f0 := f t u0 in
     let norm_y0 := nrm u0 in
     let norm_dy0 := nrm f0 + nugget in
